@@ -23,7 +23,10 @@ import (
 	"path/filepath"
 	"sort"
 	"strings"
+	"sync"
 	"time"
+
+	"github.com/go-logr/logr"
 
 	admissionv1 "k8s.io/api/admission/v1"
 	admregv1 "k8s.io/api/admissionregistration/v1"
@@ -36,6 +39,7 @@ import (
 	"k8s.io/apimachinery/pkg/runtime/schema"
 	"k8s.io/apimachinery/pkg/types"
 	"sigs.k8s.io/controller-runtime/pkg/client"
+	crlog "sigs.k8s.io/controller-runtime/pkg/log"
 	"sigs.k8s.io/controller-runtime/pkg/manager"
 	"sigs.k8s.io/controller-runtime/pkg/reconcile"
 	"sigs.k8s.io/controller-runtime/pkg/webhook"
@@ -161,9 +165,9 @@ type c19Mgr struct {
 	wh  *c19HookServer
 }
 
-func (m *c19Mgr) GetClient() client.Client           { return m.cl }
+func (m *c19Mgr) GetClient() client.Client             { return m.cl }
 func (m *c19Mgr) GetFieldIndexer() client.FieldIndexer { return m.idx }
-func (m *c19Mgr) GetWebhookServer() webhook.Server   { return m.wh }
+func (m *c19Mgr) GetWebhookServer() webhook.Server     { return m.wh }
 
 // c19HookCfg is what cluster/webhookconfigurations/usage.yaml prescribes.
 type c19HookCfg struct {
@@ -264,7 +268,11 @@ type c19Wire struct {
 	err     string
 }
 
+var c19LogOnce sync.Once
+
 func c19NewWire(st *Store) *c19Wire {
+	// the admission.Webhook logs through controller-runtime's global logger: silence it
+	c19LogOnce.Do(func() { crlog.SetLogger(logr.Discard()) })
 	w := &c19Wire{st: st, idx: &c19Indexer{}, cfg: c19LoadHookCfg()}
 	hs := &c19HookServer{hooks: map[string]http.Handler{}}
 	mgr := &c19Mgr{cl: st, idx: w.idx, wh: hs}
